@@ -124,7 +124,8 @@ type c20Col struct {
 func c20Columns() []c20Col {
 	var out []c20Col
 	enumOf := func(t string) interface{} {
-		vals := map[string][]interface{}{"string": {"a", "b"}, "integer": {1, 2}, "real": {0.5, 1.5}, "boolean": {true, false},
+		// numbers large enough for %v to switch to exponent notation, negative ones, text that is not an identifier
+		vals := map[string][]interface{}{"string": {"a", "b", "x-y z", "1st"}, "integer": {1, 2, 1000000, 25000000, -3}, "real": {0.5, 1.5, 1500000.5, 2000000.0, -0.25}, "boolean": {true, false},
 			"uuid": {[]interface{}{"uuid", uuidPool[1]}, []interface{}{"uuid", uuidPool[2]}}}[t]
 		return map[string]interface{}{"type": t, "enum": []interface{}{"set", vals}}
 	}
